@@ -229,6 +229,29 @@ func TestC03_Table(t *testing.T) {
 			return
 		}
 	}
+	// membership in a range: the items of a range are its integers only
+	rangeDoc := val.MustJSON(`{"lo":1,"hi":5,"xs":[1.5,2.5,3,7.5,"2",-0.0]}`)
+	for _, x := range []*ast.Node{ast.NumN(-3), ast.NumN(0), ast.NumN(1), ast.NumN(2.5), ast.NumN(4.999999), ast.NumN(5), ast.NumN(5.5), ast.NumN(7), ast.StrN("2"), ast.BoolN(true), ast.NameN("zz"), ast.PathN(ast.NameN("xs"))} {
+		for ri, rg := range []func() *ast.Node{
+			func() *ast.Node { return ast.ArrN(ast.N(ast.Range, ast.NumN(1), ast.NumN(5))) },
+			func() *ast.Node { return ast.ArrN(ast.N(ast.Range, ast.NumN(-2), ast.NumN(2))) },
+			func() *ast.Node { return ast.ArrN(ast.N(ast.Range, ast.NumN(5), ast.NumN(1))) },
+			func() *ast.Node { return ast.ArrN(ast.N(ast.Range, ast.NumN(1), ast.NumN(5)), ast.NumN(9)) },
+			func() *ast.Node { return ast.ArrN(ast.N(ast.Range, ast.NameN("lo"), ast.NameN("hi"))) },
+			func() *ast.Node { return ast.ArrN(ast.N(ast.Range, ast.NumN(0), ast.NumN(10000000))) },
+		} {
+			if !emit(ast.BinN("in", x.Clone(), rg()), rangeDoc, true, fmt.Sprintf("in-range|%s|%d", ast.Print(x), ri)) {
+				return
+			}
+		}
+	}
+	for _, pred := range []string{"in"} {
+		// ... and as a filter: the members of xs that lie in the range
+		p := ast.CallN("count", ast.PredN(ast.NameN("xs"), ast.BinN(pred, ast.VarN(""), ast.ArrN(ast.N(ast.Range, ast.NameN("lo"), ast.NameN("hi"))))))
+		if !emit(p, rangeDoc, true, "in-range|filter") {
+			return
+		}
+	}
 	rec.Exhaustive("operator_table_cells", cells)
 	rec.AllExhaustive()
 }
